@@ -289,6 +289,24 @@ def _evaluate_xgrid(case):
                 info["max_err_over_tol"] = max(info["max_err_over_tol"], float(r[i]))
             if (new.error is None) or np.asarray(new.error).shape != Op.shape:
                 res.fail(f"{sig}/error-shape", f"{where}: error tensor missing or of different shape")
+            if not via and d == case["degrees"][0]:
+                # the same reshape of the operator stored without an error tensor: same values, still no error tensor
+                try:
+                    with warnings.catch_warnings():
+                        warnings.simplefilter("ignore")
+                        new0 = manipulate.xgrid_reshape(
+                            Operator(O.copy(), None),
+                            xg,
+                            deg,
+                            targetgrid=None if Y is None else interpolation.XGrid(list(Y), log=is_log),
+                            inputgrid=None if Z is None else interpolation.XGrid(list(Z), log=is_log),
+                        )
+                    if new0.error is not None:
+                        res.fail(f"{sig}/no-error/error-invented", f"{where}: an operator without error tensor got one")
+                    if np.asarray(new0.operator).tobytes() != Op.tobytes():
+                        res.fail(f"{sig}/no-error/values", f"{where}: operator values depend on the presence of the error tensor (max diff {np.abs(np.asarray(new0.operator) - Op).max():.3e})")
+                except Exception as e:  # noqa
+                    res.fail(f"{sig}/no-error/raises", f"{type(e).__name__}: {e} {where}")
     res.info = info
     res.nontrivial = nchecked > 0
     res.outcome = f"xgrid:log={is_log},small-x={int(g[0] < SMALL_X)},shortcuts={int(info['shortcuts'] > 0)}"
